@@ -168,7 +168,7 @@ def run(tier, verdicts, stats, seed):
             o, ob = outs[rid], obs[rid]
             n_events += len(ob["events"])
             sha = exportlib.tree_sha(ob["tree"])
-            desc = {"prop": "C05", "slice": "threads", "plans": json.dumps(cfgs[r_["cfg"]]), "kind": r_["kind"],
+            desc = {"prop": verdicts.prop, "slice": "threads", "plans": json.dumps(cfgs[r_["cfg"]]), "kind": r_["kind"],
                     "pauses": json.dumps(r_["pauses"])}
             detail = {"events": ob["events"], "tree": ob["tree"], "files": {b: blobs.get(b) for b in ob["tree"].values() if b in blobs},
                       "calls": [exportlib_call_name(c) for c in calls]}
